@@ -145,7 +145,7 @@ fn main() {
         let outcome = if body["case"]["kind"] == "wal" {
             // a process-death case: re-run it alone in a subprocess
             let hexs = body["case"]["wal"].as_str().unwrap_or("").to_string();
-            let f = std::path::Path::new(VERIF_ROOT).join("work").join(format!("replay.{}.cand", std::process::id()));
+            let f = verif_root().join("work").join(format!("replay.{}.cand", std::process::id()));
             let _ = std::fs::create_dir_all(f.parent().unwrap());
             let _ = std::fs::write(&f, &hexs);
             let prof = body["case"]["profile"].as_str().unwrap_or("release");
